@@ -110,6 +110,16 @@ Theorem C08_history_predicts : forall R (pre post : list (hop R)) p d ctx, commi
 Proof. exact history_predicts. Qed.
 Print Assumptions C08_history_predicts.
 
+(* the gas limit a simulated call runs with never exceeds the node's cap, and below the cap it is exactly the
+   requested one (the premise "for the same gas limit" of the prediction clause) *)
+Theorem C08_call_gas_le_cap : forall gas_cap args_gas, gas_cap <> 0 -> call_gas gas_cap args_gas <= gas_cap.
+Proof. exact call_gas_le_cap. Qed.
+Print Assumptions C08_call_gas_le_cap.
+
+Theorem C08_call_gas_exact : forall gas_cap g, gas_cap = 0 \/ g <= gas_cap -> call_gas gas_cap (Some g) = g.
+Proof. exact call_gas_exact. Qed.
+Print Assumptions C08_call_gas_exact.
+
 (* non-vacuity: a program that creates, writes through "another module", self-destructs and reverts;
    a non-monotone executable for which the estimate is still a success; error classes are reachable *)
 Definition ex_prog : prog (option val * N) :=
